@@ -1,5 +1,6 @@
 import Mieru.Proofs.PoS
 import Mieru.Proofs.SocksMsg
+import Mieru.Gen.C18
 /-!
 # C18 — UDP-associate tunnelling preserves datagram boundaries, contents and addressing
 
@@ -467,7 +468,91 @@ theorem assoc_reply_header (s : Assoc) (ip payload : Bytes) (port : Nat) :
   dsimp only
   cases hg : getHeader s.headers (canonIP ip, port) <;> simp [hg]
 
+/-- **A reply that does not fit one tunnel frame** (header ++ payload > 65535 bytes — reachable without jumbograms:
+    a 65507-byte IPv4 reply to a destination addressed by a name of 22 bytes or more, or an IPv6 reply above 65513
+    bytes): it is dropped, NOTHING is written to the tunnel, and the relay's state is exactly what relaying it would
+    have left — so every later reply, of this and of every other host, is relayed as before.  Every reply that fits is
+    written as exactly one frame: the remembered (or literal) header followed by exactly the reply bytes.
+    (Audit B, C18 MODEL-MISMATCH-1; the code before "fix: UDP associate drops a reply that does not fit a tunnel
+    packet…" stopped the whole reply direction there — reproduced by `C18/assoc/oversize/later-reply-lost`.) -/
+theorem assoc_reply_fits_or_dropped (s : Assoc) (ip payload : Bytes) (port : Nat) :
+    (s.downChecked ip port payload).1 = (s.down ip port payload).1 ∧
+    ((s.down ip port payload).2.length ≤ 65535 →
+      (s.downChecked ip port payload).2 = some (s.down ip port payload).2 ∧
+      posWrite (s.down ip port payload).2 = some (posFrame (s.down ip port payload).2)) ∧
+    (65535 < (s.down ip port payload).2.length → (s.downChecked ip port payload).2 = none) := by
+  unfold Assoc.downChecked
+  refine ⟨by dsimp only; split <;> rfl, fun h => ?_, fun h => ?_⟩
+  · refine ⟨by dsimp only; rw [if_neg (by omega)], (pos_write_total _).1 h⟩
+  · dsimp only; rw [if_pos h]
+
+/-! ## ties (T): regenerated from the working tree (`Mieru.Gen.C18`, tools/goextract/c18facts.go) -/
+
+/-- the frame, as written: `Read` = start marker read and compared with 0x00 → two length bytes, big endian → `length >
+    len(p)`: io.ErrShortBuffer → data by ReadFull → end marker read and compared with 0xff; `Write` refuses
+    `len(p) > 65535` (= the model's `maxLen`) and lays out `00 | len | data | ff` — `readOne` / `posWrite` line by line -/
+theorem pos_frame_code_expected :
+    Gen.C18.posWriteLimit = maxLen ∧
+    Gen.C18.posReadSkeleton =
+      ["delim := make([]byte, 1)",
+       "if _, err = io.ReadFull(c.Conn, delim); err != nil {", "  return 0, err", "}",
+       "if delim[0] != 0x00 {", "  return 0, fmt.Errorf(…)", "}",
+       "lengthBytes := make([]byte, 2)",
+       "if _, err = io.ReadFull(c.Conn, lengthBytes); err != nil {", "  return 0, err", "}",
+       "length := int(binary.BigEndian.Uint16(lengthBytes))",
+       "if length > len(p) {", "  return 0, io.ErrShortBuffer", "}",
+       "if n, err = io.ReadFull(c.Conn, p[:length]); err != nil {", "  return 0, err", "}",
+       "if _, err = io.ReadFull(c.Conn, delim); err != nil {", "  return 0, err", "}",
+       "if delim[0] != 0xff {", "  return 0, fmt.Errorf(…)", "}",
+       "return"] ∧
+    Gen.C18.posWriteSkeleton =
+      ["if len(p) > 65535 {", "  return 0, fmt.Errorf(…)", "}",
+       "data := make([]byte, 4+len(p))",
+       "data[0] = 0x00",
+       "binary.BigEndian.PutUint16(data[1:], uint16(len(p)))",
+       "copy(data[3:], p)",
+       "data[3+len(p)] = 0xff",
+       "if _, err := c.Conn.Write(data); err != nil {", "  return 0, err", "}",
+       "return len(p), nil"] := by
+  refine ⟨by decide, by decide +kernel, by decide +kernel⟩
+
+/-- every buffer a relay loop reads a datagram into holds the largest datagram the framing carries (65535) and the
+    largest UDP payload of either family (65507 over IPv4, 65527 over IPv6): `ReadFromUDP` truncates silently, so a
+    smaller buffer would relay a well-formed SHORTER datagram (seeded change C18-5). The only other buffer is the
+    1-byte one of the forwarding loop's control-connection monitor. -/
+theorem relay_read_buffers_expected :
+    (Gen.C18.relayBufferSizes.filter fun b => b.2 ≠ 1).all (fun b => decide (65535 ≤ b.2) && decide (65527 ≤ b.2)) = true ∧
+    Gen.C18.relayBufferSizes.map (·.1) =
+      ["runUDPAssociateLoop", "runUDPAssociateLoop", "RunUDPForwardingLoop", "RunUDPForwardingLoop", "RunUDPForwardingLoop",
+       "runUDPAssociateDatagramLoop", "BidiCopyUDP", "BidiCopyUDP"] ∧
+    (Gen.C18.relayBufferSizes.filter fun b => b.2 == 1) = [("RunUDPForwardingLoop", 1)] := by
+  refine ⟨by decide, by decide, by decide⟩
+
+/-- the reply direction of `runUDPAssociateLoop`, as written: read → header loaded from `addrMap` or built by
+    `udpAddrToHeader` AND stored → the size check of the repair (`continue`, nothing written) → one `conn.Write` of
+    header ++ payload → only a failed write ends the loop — `Assoc.downChecked` line by line -/
+theorem assoc_reply_direction_expected :
+    Gen.C18.assocDownSkeleton.drop 9 =
+      ["var header []byte",
+       "v, ok := addrMap.Load(addr.String())",
+       "if ok {", "  header = v.([]byte)",
+       "} else {", "  header = udpAddrToHeader(addr)", "  addrMap.Store(addr.String(), header)", "}",
+       "if len(header)+n > maxPacketOverStreamSize {", "  continue", "}",
+       "_, err = conn.Write(append(append([]byte(nil), header...), buf[:n]...))",
+       "if err != nil {", "  if udpErr.Load() == nil {", "    udpErr.Store(udpLoopError{err})", "  }", "  return", "}"] := by
+  decide +kernel
+
 /-! ## non-vacuity: concrete instances of the hypotheses -/
+
+/-- an oversize reply: remembered 35-byte domain header + 65507 bytes = 65542 > 65535: dropped, state as after a relay;
+    a 100-byte reply afterwards is framed with the same remembered header -/
+example :
+    let hdr : Bytes := [0, 0, 0, 3, 28] ++ List.replicate 28 0x61 ++ [0, 53]
+    let s : Assoc := { headers := [(([127, 0, 0, 1], 53), hdr)], hosts := [] }
+    (s.downChecked [127, 0, 0, 1] 53 (List.replicate 65507 7)).2 = none ∧
+    (s.downChecked [127, 0, 0, 1] 53 (List.replicate 65507 7)).1.headers = s.headers ∧
+    ((s.downChecked [127, 0, 0, 1] 53 (List.replicate 65507 7)).1.downChecked [127, 0, 0, 1] 53 [1, 2, 3]).2 = some (hdr ++ [1, 2, 3]) := by
+  decide +kernel
 
 /-- empty, marker-valued and frame-looking datagrams, fed byte by byte -/
 example : ([[0x00], [0x00], [0x00], [0xff], [0x00], [0x00], [0x01], [0x00], [0xff],
